@@ -1012,5 +1012,5 @@ pub fn case(tape: &[u8], ctx: &Ctx) -> Outcome {
 }
 
 pub fn property() -> Property {
-    Property { id: "C17", rule: RULE, phases: vec![Phase::Prop { name: "gz file operation sequences", f: case, quick: 400_000, thorough: 6_000_000, max_tape: 300 }] }
+    Property { id: "C17", rule: RULE, phases: vec![Phase::Prop { name: "gz file operation sequences", f: case, quick: 200_000, thorough: 6_000_000, max_tape: 300 }] }
 }
